@@ -219,6 +219,8 @@ def gen_config(rng: random.Random, seed_tag: int, force_variant: str | None = No
         force_variant = rng.choice(['NT', 'NT', 'PO'])
     elif director == 'exact_deck':
         force_variant = 'custom'
+    elif director == 'ante_allin':
+        force_variant = rng.choice(['FR', 'FR', 'F7S', 'F7S/8', 'NT', 'FT', 'PO'])
     variant = force_variant or rng.choice(profile['variants'] if profile.get('variants') else
                                           list(VARIANTS) + ([] if profile.get('predefined') else ['custom'] * 2))
     autos, auto_mode = gen_autos(rng)
@@ -271,6 +273,18 @@ def gen_config(rng: random.Random, seed_tag: int, force_variant: str | None = No
             antes, ak = 0, 'none'
         if director == 'rule96':
             n, antes, ak, stacks, sk = rule96_table(rng, unit)
+        if director == 'ante_allin':
+            # some players cannot cover (or exactly cover) the ante: they are all-in before a card is dealt
+            n = rng.randint(3, min(6, MAX_PLAYERS[variant]))
+            a = rng.randint(1, unit)
+            antes, ak = a, 'uniform'
+            stacks = [rng.randint(1, a) if rng.random() < 0.35 else rng.randint(10, 60) * unit for _ in range(n)]
+            deep = [i for i in range(n) if stacks[i] > a]
+            while len(deep) < 2:
+                i = rng.choice([j for j in range(n) if j not in deep])
+                stacks[i] = rng.randint(10, 60) * unit
+                deep.append(i)
+            sk = 'ante_allin'
         common = dict(mode=mode, starting_board_count=boards, divmod=dm, rake=rake_f)
         if variant in STUD:
             bring_in = rng.choice([1, max(1, unit // 2)])
@@ -362,8 +376,14 @@ def valid_ops(rng: random.Random, s: State, tune: dict) -> list[tuple[str, float
             cs = rng.sample(list(s.deck_cards), k)
             out.append((f'deal_hole {_cards_text(cs)} {j}', 1.5))
             out.append((f'deal_hole {_cards_text(cs[:min(k, pend)])} -', 0.7))
+        else:
+            # the deck is short: the dealable cards include the reserve (burns, muck, discards)
+            pool = [c for c in s.get_dealable_cards(k) if c]
+            if len(pool) >= k:
+                cs = rng.sample(pool, k)
+                out.append((f'deal_hole {_cards_text(cs)} {j}', 2.5))
         out.append((f'deal_hole #{pj} {j}', 1))
-        if pj >= 2 and s.deck_cards and rng.random() < 0.3:
+        if pj >= 2 and s.deck_cards and tune.get('warnerr') and rng.random() < 0.3:
             c = repr(rng.choice(list(s.deck_cards)))
             out.append((f'deal_hole {c}{c} {j}', 0.6))      # the same card named twice
         if tune.get('unknown'):
@@ -375,7 +395,7 @@ def valid_ops(rng: random.Random, s: State, tune: dict) -> list[tuple[str, float
         out.append((f'deal_board #{k}', 1))
         if len(s.deck_cards) >= k:
             out.append((f'deal_board {_cards_text(rng.sample(list(s.deck_cards), k))}', 1.5))
-        if c >= 2 and s.deck_cards and rng.random() < 0.3:
+        if c >= 2 and s.deck_cards and tune.get('warnerr') and rng.random() < 0.3:
             d = repr(rng.choice(list(s.deck_cards)))
             out.append((f'deal_board {d}{d}', 0.6))          # the same card named twice
     if s.can_stand_pat_or_discard():
@@ -472,11 +492,18 @@ def boundary_probes(rng: random.Random, s: State) -> list[str]:
             if len(s.deck_cards) >= k:
                 out.append(f'deal_hole {_cards_text(list(s.deck_cards)[:k])} {j}')
         out.append('deal_hole #0 -')
+        if s.deck_cards:
+            d = repr(s.deck_cards[0])
+            jj = next((j for j in range(n) if len(s.hole_dealing_statuses[j]) >= 2), None)
+            if jj is not None:
+                out.append(f'deal_hole {d}{d} {jj}')            # the same card named twice
     if any(s.board_dealing_counts):
         c = max(s.board_dealing_counts)
         out += [f'deal_board #{c + 1}', 'deal_board #0']
         if len(s.deck_cards) > c:
             out.append(f'deal_board {_cards_text(list(s.deck_cards)[:c + 1])}')
+        if c >= 2 and s.deck_cards:
+            out.append(f'deal_board {repr(s.deck_cards[0])}{repr(s.deck_cards[0])}')
     if s.card_burning_status and len(s.deck_cards) >= 2:
         out.append(f'burn {_cards_text(list(s.deck_cards)[:2])}')
     if any(s.standing_pat_or_discarding_statuses) and s.deck_cards:
